@@ -351,6 +351,8 @@ func (x *Exec) loopEnter(st *State, fr *Frame, li *loopInfo, from *ssa.BasicBloc
 	}
 	auto := x.autoInvariants(st, fr, li)
 	env := x.newEnv(st, fr.entry, fr)
+	env.loopPre = st // on entry pre(e) is e
+	env.curLoop = li
 	for _, c := range invs {
 		g := env.evalBool(c.E)
 		x.oblige(st, fr, tagFn+"/invariant-entry", clauseTag(c), c, 0, g, c.Src)
@@ -424,6 +426,7 @@ func (x *Exec) loopEnter(st *State, fr *Frame, li *loopInfo, from *ssa.BasicBloc
 	// 3. assume invariants
 	env2 := x.newEnv(st, fr.entry, fr)
 	env2.loopPre = al.pre
+	env2.curLoop = li
 	for _, g := range auto {
 		x.assume(st, g(st))
 	}
@@ -475,6 +478,7 @@ func (x *Exec) loopBackEdge(st *State, fr *Frame, al *activeLoop) {
 	tagFn := fmt.Sprintf("loop%d", al.li.ord)
 	env := x.newEnv(st, fr.entry, fr)
 	env.loopPre = al.pre
+	env.curLoop = al.li
 	if lc != nil {
 		for _, c := range lc.Clauses {
 			if !clauseActive(c, x.active) {
